@@ -21,6 +21,10 @@
       `signer_stale_hit_unlocked` (reader matches Hash h2 and returns the old Sig of h1),
       `torn_cache_persists` (a torn cache makes a LATER, sequential call return a wrong signature),
       `lastSig_torn_unlocked` / `lastSig_consistent_locked`.
+    * `rmw_no_lost_update` (FULL under the discipline): k writers doing read; append; write-back on one stored
+      record under one lock section ⇒ the stored set is exactly the acknowledged appends in acquisition order;
+      `rmw_lost_update_refuted` / `rmw_outcomes_unlocked`: without a lock spanning the three steps an acknowledged
+      append is lost (read-read-write-write; 4 of the 6 merges).
     * `table_discipline`: by `decide` over the committed table, ALL nine shared variables satisfy the discipline on
       the current code (sigCache under `consensus.sigCacheMu` since f4ffd1d, lastSig under `Confirmer.lastSigLock`
       since 204ebea, the unconfirmed tree under `ChainDatabase.RW` since a25165d, `FileQueue.Offset` under
@@ -403,25 +407,92 @@ theorem lastSig_consistent_locked (h0 x0 h1 x1 : Nat) :
     lsOutcome h0 x0 h1 x1 [false, false, false, true, true] = (if h1 > h0 then (h1, x1) else (h0, x0)) := by
   by_cases h : h0 < h1 <;> simp [lsOutcome, runLS, setLastSigSteps, readLastSigSteps, h]
 
+/-! ### read-modify-write of a stored record (`setConfirm` on a stable block) -/
+
+/-- sequential invariant: the stored set is exactly the acknowledged confirms, in order (nothing lost,
+    nothing duplicated) -/
+def RInv (s : RS) : Prop := s.cell = s.acked.reverse
+
+theorem rmwSteps_seq (i x : Nat) (s : RS) (h : RInv s) : RInv (runSteps (rmwSteps i x) s) := by
+  unfold RInv at *
+  simp [rmwSteps, runSteps, rmwRead, rmwWrite, h]
+
+theorem rinv_runSecs (secs : List (List (RS → RS))) (s : RS) (hs : RInv s)
+    (hq : ∀ fs ∈ secs, ∃ i x, fs = rmwSteps i x) : RInv (runSecs secs s) := by
+  induction secs generalizing s with
+  | nil => exact hs
+  | cons fs r ih =>
+    obtain ⟨i, x, rfl⟩ := hq _ List.mem_cons_self
+    exact ih _ (rmwSteps_seq i x s hs) (fun fs' hf => hq fs' (List.mem_cons_of_mem _ hf))
+
+/-- **rmw_no_lost_update** (any number of writers, writer `i` appending the confirms `vals i` one call after the
+    other, every read–append–write-back under ONE lock section; every schedule).  Whenever the lock is free, the
+    stored set is exactly the list of acknowledged confirms in lock-acquisition order: in particular every confirm
+    whose `SetConfirms` returned is stored (the union every sequential order gives). -/
+theorem rmw_no_lost_update (vals : Nat → List Nat) (sch : List Nat) :
+    let c := exec (init ({} : RS) (fun i => (vals i).map (rmwSec true i))) sch
+    c.owner = none → c.st.cell = c.st.acked.reverse ∧ ∀ x ∈ c.st.acked, x ∈ c.st.cell := by
+  intro c ho
+  have hd := (drf_of_discipline ({} : RS) (fun i => (vals i).map (rmwSec true i))
+    (by intro i sec h; simp only [List.mem_map] at h; obtain ⟨_, _, rfl⟩ := h; rfl) sch).1 ho
+  have hq : ∀ fs ∈ c.log, ∃ i x, fs = rmwSteps i x := by
+    apply log_from_progs (fun fs => ∃ i x, fs = rmwSteps i x) sch
+    · intro i sec h
+      simp only [init, List.mem_map] at h
+      obtain ⟨x, _, rfl⟩ := h
+      exact ⟨i, x, rfl⟩
+    · intro fs h; simp [init] at h
+  have hinv : RInv c.st := by
+    rw [hd.2]
+    apply rinv_runSecs
+    · rfl
+    · intro fs hfs; exact hq fs (List.mem_reverse.mp hfs)
+  refine ⟨hinv, fun x hx => ?_⟩
+  rw [hinv]; exact List.mem_reverse.mpr hx
+
+/-- non-vacuity: two locked writers, interleaved picks (writer 1 blocked on the lock meanwhile) -/
+example :
+    let c := exec (init ({} : RS) (fun i => if i = 0 then [rmwSec true 0 1] else if i = 1 then [rmwSec true 1 2] else []))
+      [0, 1, 0, 1, 0, 0, 1, 1, 1, 1]
+    c.owner = none ∧ c.st.cell = [1, 2] ∧ c.st.acked = [2, 1] := by decide
+
+/-- **REFUTATION without a lock spanning the three steps** (the seeded change "release RW before the stable-block
+    path of setConfirm"; general machine): both writers read the set S = [], writer 0 writes back S+1, writer 1
+    writes back S+2: both calls have returned (`acked = [2, 1]`), the store holds `[2]` — confirm 1 is lost, and no
+    sequential order of the two calls gives that. -/
+theorem rmw_lost_update_refuted :
+    ∃ sch : List Nat,
+      let c := exec (init ({} : RS) (fun i => if i = 0 then [rmwSec false 0 1] else if i = 1 then [rmwSec false 1 2] else [])) sch
+      c.st.acked = [2, 1] ∧ c.st.cell = [2] ∧ (∀ j, j < 2 → ((c.ts j).cur.isNone ∧ (c.ts j).todo.isEmpty)) :=
+  ⟨[0, 1, 0, 1, 0, 1, 0, 1], by decide⟩
+
+/-- **rmw_outcomes_unlocked**: over ALL 6 merges of two unsynchronised read–append–write-backs the stored set is one
+    of `[1,2]`, `[2,1]` (the two sequential results) or `[2]`, `[1]` (a lost update: 4 of the 6 merges). -/
+theorem rmw_outcomes_unlocked :
+    dedup ((merges 2 2).map (fun m => (rmwOutcome m).1)) = [[1, 2], [2], [1], [2, 1]] ∧
+    ((merges 2 2).filter (fun m => (rmwOutcome m).1.length < 2)).length = 4 := by decide
+
 /-! ### which premises hold on the code: the committed fact table -/
 
 /-- **table_discipline** (current code = /repo with the repairs f4ffd1d `sigCacheMu`, 204ebea
     `Confirmer.lastSigLock`, a25165d RW in the unconfirmed-tree readers, 20ee480 `FileQueue.putLock`): over the
     committed table (= the source, by the per-run correspondence) the lock discipline holds for ALL nine shared
-    variables: every access from a real entry point holds the variable's lock (`guards` names it), so
+    variables and for the read-modify-write record `Beansdb.blockRecord` (the read and the write back of
+    `setConfirm` on a stable block sit in ONE section of `ChainDatabase.RW`, so `rmw_no_lost_update` applies): every access from a real entry point holds the variable's lock (`guards` names it), so
     `drf_of_discipline` applies per variable and `signer_cache_atomicity` applies to the real `SignBlock`. -/
 theorem table_discipline :
     disciplined table .sigCache = true ∧ disciplined table .lastSig = true ∧
     disciplined table .head = true ∧ disciplined table .unConfirmBlocks = true ∧
     disciplined table .lastConfirm = true ∧ disciplined table .offset = true ∧
     disciplined table .index = true ∧ disciplined table .termList = true ∧
-    disciplined table .evilDeputies = true := by decide
+    disciplined table .evilDeputies = true ∧ disciplined table .blockRecord = true := by decide
 
 /-- no row of the current table breaks the discipline of any variable -/
 theorem table_no_offenders :
     offenders table .sigCache = [] ∧ offenders table .lastSig = [] ∧ offenders table .head = [] ∧
     offenders table .unConfirmBlocks = [] ∧ offenders table .lastConfirm = [] ∧ offenders table .offset = [] ∧
-    offenders table .index = [] ∧ offenders table .termList = [] ∧ offenders table .evilDeputies = [] := by decide
+    offenders table .index = [] ∧ offenders table .termList = [] ∧ offenders table .evilDeputies = [] ∧
+    offenders table .blockRecord = [] := by decide
 
 /-- the only unlocked accesses left are constructor / start-up code (entry "-"), before the object is shared -/
 theorem table_unlocked_rows_are_startup :
